@@ -397,4 +397,3 @@ def rules(ctx):
         Rule("R27.c", "path component normalisation is injective; the `src` skip drops the component it tested", 2, r27c),
         Rule("R27.d", "symbol names come only from the mangler / internal mangler / literals / extern names; families disjoint by first character", 12, r27d),
     ]
-READY = False
